@@ -362,3 +362,14 @@ def require_ok(res, what, min_states=20):
     if res.distinct < min_states:
         # vacuity guard: an exhaustive instance that explores (almost) nothing decides nothing
         raise MachineryError('model checking of %s explored only %d states (vacuous instance?)' % (what, res.distinct))
+
+
+def generic_replay(mod, rep, wd, payload):
+    """All generation is seeded and deterministic: re-run the check with the recorded seed and tier on the working tree
+    and keep the violations with the recorded key."""
+    rep.tier, rep.seed = payload.get('tier', 'quick'), payload.get('seed', 0)
+    mod.run(rep, wd, rep.tier, rep.seed)
+    want = payload['key']
+    rep.violations = [(k, p) for k, p in rep.violations if k == want]
+    print('replayed by re-running the seeded check (seed=%s tier=%s); violations with key %s: %d'
+          % (rep.seed, rep.tier, want, len(rep.violations)))
